@@ -23,6 +23,18 @@ static int64_t nv_fn_calls(const struct nv_function* f) { return (int64_t)nv_ver
 #endif
 
 /* assumed contract of solver_state_t{function, x0}: one evaluation at x0, status max_iters, reported counts copied */
+#if defined(NV_C02)
+double nv_ls_f0;            /* ghost: the value at the starting point (recorded when the body builds its first state) */
+/* solver_state_t::valid() => finite value (specs/C02 target state_valid) */
+#define NV_STATE_MAKE_GHOST(s) { __CPROVER_assume(!(s).valid || __CPROVER_isfinited((s).m_fx)); nv_ls_f0 = (s).m_fx; }
+#define NV_F0_ASSIGNS , nv_ls_f0
+/* an accepted iterate of an Armijo-exit line search is finite and not above the starting value */
+#define NV_DECR(s) (__CPROVER_isfinited((s).m_fx) && (!nv_ls_armijo_exit || (s).m_fx <= nv_ls_f0))
+#else
+#define NV_STATE_MAKE_GHOST(s)
+#define NV_F0_ASSIGNS
+#define NV_DECR(s) 1
+#endif
 static struct nv_state nv_state_make(const struct nv_function* f, const struct nv_opaque* x0)
 {
   struct nv_state s;
@@ -30,6 +42,7 @@ static struct nv_state nv_state_make(const struct nv_function* f, const struct n
   s.ver = nv_ver_counter; s.eval_ver = s.ver; s.origin = 0; s.t = 0.0;
   s.valid = nv_nondet__Bool(); s.m_fx = nv_nondet_double(); s.dg = nv_nondet_double(); s.gtest = nv_nondet_double(); s.feas = nv_nondet_double(); s.cons_ver = s.ver;
   s.m_status = NVE_solver_status_max_iters; s.m_fcalls = (int64_t)nv_ver_counter; s.m_gcalls = (int64_t)nv_ver_counter;
+  NV_STATE_MAKE_GHOST(s)
   return s;
 }
 static struct nv_state nv_state_default(void)
@@ -57,13 +70,16 @@ __CPROVER_assigns(*state, nv_ver_counter, self->m_last_step_size, nv_ls_ghost) \
 __CPROVER_ensures(__CPROVER_return_value ==> (state->valid && state->ver != __CPROVER_old(state->ver))) \
 __CPROVER_ensures(NV_STATE_OK(state) && nv_ver_counter >= __CPROVER_old(nv_ver_counter) && nv_ver_counter - __CPROVER_old(nv_ver_counter) <= NV_LS_MAX_EVALS) \
 __CPROVER_ensures(__CPROVER_return_value ==> nv_ver_counter > __CPROVER_old(nv_ver_counter)) \
-__CPROVER_ensures(state->m_status == __CPROVER_old(state->m_status))
+__CPROVER_ensures(state->m_status == __CPROVER_old(state->m_status)) \
+NV_LS_DECREASE(__CPROVER_return_value)
 
 /* ---- solver_t::done: the decision protocol of every solver iteration (from the property statements):
  *   returns true  <=> converged or the step failed (iter_ok false or state invalid);
  *   C01: status becomes `converged` only if the caller's convergence test held;
  *   C02: "unless the status is failed the returned point and value are finite": a state that is not valid is never
- *        given the status `converged`. */
+ *        given the status `converged`;
+ *   C02: "the value is not larger than the starting value": a FAILED iteration (iter_ok false: the line search gave up and left the
+ *        state at its last trial point) is never `converged`, it ends in `failed` (repaired defect, specs/C02/FINDING_failed_lsearch_converged.md). */
 #ifndef NV_DONE_EXTRA_REQUIRES
 #define NV_DONE_EXTRA_REQUIRES 1
 #endif
@@ -77,6 +93,9 @@ __CPROVER_ensures(!__CPROVER_return_value ==> state->m_status == __CPROVER_old(s
 __CPROVER_ensures(__CPROVER_return_value ==> (state->m_status == NVE_solver_status_converged || state->m_status == NVE_solver_status_failed)) \
 __CPROVER_ensures((__CPROVER_return_value && state->m_status == NVE_solver_status_converged) ==> converged) \
 __CPROVER_ensures((__CPROVER_return_value && state->m_status == NVE_solver_status_converged) ==> state->valid) \
+__CPROVER_ensures((__CPROVER_return_value && state->m_status == NVE_solver_status_converged) ==> iter_ok) \
+__CPROVER_ensures(!iter_ok ==> (__CPROVER_return_value && state->m_status == NVE_solver_status_failed)) \
+__CPROVER_ensures((__CPROVER_return_value && converged && iter_ok && state->valid) ==> state->m_status == NVE_solver_status_converged) \
 __CPROVER_ensures(state->m_fcalls >= 0 && (uint64_t)state->m_fcalls <= nv_ver_counter && state->m_gcalls >= 0 && (uint64_t)state->m_gcalls <= NV_GCOUNT)
 
 /* ---- do_minimize of gd / cgd / lbfgs / quasi */
@@ -95,7 +114,19 @@ __CPROVER_ensures(NV_RET.m_fcalls >= 0 && (uint64_t)NV_RET.m_fcalls <= nv_ver_co
 /* C02: unless failed, the returned point and value are finite */ \
 __CPROVER_ensures(NV_RET.m_status != NVE_solver_status_failed ==> NV_RET.valid) \
 /* C02: budget: evaluations exceed max_evals by at most one outer iteration's worth (one line search) */ \
-__CPROVER_ensures(nv_ver_counter < 2000000000 && 2 * nv_ver_counter < (uint64_t)nv_max_evals + 2 * NV_LS_MAX_EVALS + 2)
+__CPROVER_ensures(nv_ver_counter < 2000000000 && 2 * nv_ver_counter < (uint64_t)nv_max_evals + 2 * NV_LS_MAX_EVALS + 2) \
+NV_ENSURES_C02_F0
+#if defined(NV_C02)
+/* C02: "the value is not larger than the starting value" for an Armijo-exit line search (every pairing but CG_DESCENT) and a finite start */
+/* (two clauses: the second one was REFUTED before the library repair `(converged && step_ok)` in solver_t::done -- a FAILED line search leaves
+ *  the state at its last trial point and solver_t::done(state, iter_ok = false, converged = true) reported `converged`:
+ *  specs/C02/FINDING_failed_lsearch_converged.md, replay/C02_failed_lsearch_converged.cpp; `fixed:` line in known_findings.txt) */
+#define NV_ENSURES_C02_F0 \
+__CPROVER_ensures((nv_ls_armijo_exit && NV_RET.m_status == NVE_solver_status_max_iters && __CPROVER_isfinited(nv_ls_f0)) ==> NV_RET.m_fx <= nv_ls_f0) \
+__CPROVER_ensures((nv_ls_armijo_exit && NV_RET.m_status == NVE_solver_status_converged && __CPROVER_isfinited(nv_ls_f0)) ==> NV_RET.m_fx <= nv_ls_f0)
+#else
+#define NV_ENSURES_C02_F0
+#endif
 #if defined(NV_C01)
 #define NV_MINIMIZE_ENSURES NV_ENSURES_C01
 #elif defined(NV_C02)
@@ -103,12 +134,12 @@ __CPROVER_ensures(nv_ver_counter < 2000000000 && 2 * nv_ver_counter < (uint64_t)
 #else
 #define NV_MINIMIZE_ENSURES NV_ENSURES_C01 NV_ENSURES_C02
 #endif
-#define NV_MINIMIZE_ASSIGNS __CPROVER_assigns(nv_ver_counter, nv_ls_ghost)
+#define NV_MINIMIZE_ASSIGNS __CPROVER_assigns(nv_ver_counter, nv_ls_ghost NV_F0_ASSIGNS)
 
 #define NV_CONTRACT_gd_do_minimize NV_MINIMIZE_REQUIRES NV_MINIMIZE_ASSIGNS NV_MINIMIZE_ENSURES
 #define NV_LOOP_gd_do_minimize_1 \
 __CPROVER_assigns(state, descent, lsearch, nv_ver_counter, nv_ls_ghost) \
-__CPROVER_loop_invariant(NV_STATE_OK(&state) && state.m_status == NVE_solver_status_max_iters && state.valid) \
+__CPROVER_loop_invariant(NV_STATE_OK(&state) && state.m_status == NVE_solver_status_max_iters && state.valid && NV_DECR(state)) \
 __CPROVER_loop_invariant(state.m_fcalls >= 0 && (uint64_t)state.m_fcalls <= nv_ver_counter && state.m_gcalls >= 0 && (uint64_t)state.m_gcalls <= nv_ver_counter) \
 __CPROVER_loop_invariant(1 <= nv_ver_counter && nv_ver_counter < 2000000000 && 2 * nv_ver_counter < (uint64_t)nv_max_evals + 2 * NV_LS_MAX_EVALS + 2) \
 __CPROVER_decreases((uint64_t)nv_max_evals + (2 * NV_LS_MAX_EVALS + 50000) - 2 * nv_ver_counter)
@@ -125,7 +156,7 @@ static uint64_t nv_param_history(void) { return nv_nondet_uint64_t(); }
 #define NV_BUDGET (1 <= nv_ver_counter && nv_ver_counter < 2000000000 && 2 * nv_ver_counter < (uint64_t)nv_max_evals + 2 * NV_LS_MAX_EVALS + 2)
 #define NV_SOLVER_LOOP(extra) \
 __CPROVER_assigns(cstate, pstate, lsearch, nv_ver_counter, nv_ls_ghost extra) \
-__CPROVER_loop_invariant(NV_GOOD(cstate) && NV_GOOD(pstate) && NV_BUDGET) \
+__CPROVER_loop_invariant(NV_GOOD(cstate) && NV_GOOD(pstate) && NV_BUDGET && NV_DECR(cstate) && (pstate.ver == 0 /* quasi: the default-constructed previous state before the first iteration */ || NV_DECR(pstate))) \
 __CPROVER_decreases((uint64_t)nv_max_evals + (2 * NV_LS_MAX_EVALS + 50000) - 2 * nv_ver_counter)
 #define NV_COMMA ,
 #define NV_CONTRACT_cgd_do_minimize NV_MINIMIZE_REQUIRES NV_MINIMIZE_ASSIGNS NV_MINIMIZE_ENSURES
